@@ -10,6 +10,9 @@ from .catjob import lookup, Job
 PID = "C01"
 
 
+PRELUDE_SUBSET = ("int_lt_ss", "int_le_sc3", "int_eq_ss", "int_abs", "int_mul_ss", "int_truediv_ss", "int_to_bits_default", "int_check_positive", "sel_ite_cmp", "arr_read_s2", "int_rshift_sc3")
+
+
 def is_heavy(e):
     """secret exponent / shift count (secret on the right-hand side): 2^n paths and chains of products"""
     return any(t in e.tags for t in ("pow", "lshift", "rshift")) and ("ss" in e.tags or "cs" in e.tags)
@@ -39,6 +42,12 @@ def jobs(tier):
                                                                      "int_truediv_sc3", "assert_lt_ss"):
                     js.append(dict(name="%s/n4/nest2" % e.name, entry=e.name, backend="snarkjs",
                                    cfg=dict(n=4, r=2, guard=("nest", 2), bound=bound), tier=tier, weight=8))
+    # histories: the same operations after a region with a false guard was left normally / by an exception
+    for e in CAT.build(4, "quick"):
+        if e.name in PRELUDE_SUBSET or e.name in ("assert_lt_ss", "assert_positive"):
+            for pre in (["false_region"], ["aborted_region"]):
+                js.append(dict(name="%s/n4/after-%s" % (e.name, pre[0]), entry=e.name, backend="snarkjs",
+                               cfg=dict(n=4, r=2, guard=None, bound=(1 << 64), prelude=pre), tier=tier, weight=2))
     if tier == "thorough":
         for be in ("zkinterface", "zkifbellman", "zkifbulletproofs"):
             for e in CAT.build(4, "quick"):
